@@ -369,6 +369,18 @@ def analyse(args):
             rec['cells'] = r.get('cells', 0)
             if r['result'] == 'unsat':
                 rec['status'] = 'ok'
+                # translator validation on a fixed concrete database
+                try:
+                    dis = E.validate_translation(start_master, E.catalog('default'), stmts, sqls[0], spec)
+                except S.Unsupported as e:
+                    dis = ['unsupported: %s' % str(e)[:100]]
+                rec['translation_validated'] = not dis
+                if dis and dis[0].startswith('real execution failed'):
+                    rec['status'] = 'invalid'
+                    rec['detail'] = 'the generated SQL does not execute (reported under C01): %s' % dis[0][:200]
+                elif dis:
+                    rec['status'] = 'unsupported'
+                    rec['detail'] = 'translator validation disagreement: %s' % '; '.join(dis)[:400]
             elif r['result'] == 'sat':
                 rep = replay_c02(spec, muts, sqls[0], r.get('model'))
                 rec['detail'] = r['detail']
@@ -629,6 +641,7 @@ def run(prop, tier):
             'encoding_mismatches': [{'program': r['id'], 'detail': r.get('detail', '')[:200], 'replay': r.get('replay')}
                                     for r in recs if r['status'] == 'encoding_mismatch'][:20],
             'unknown': counts.get('unknown', 0),
+            'translation_validated_programs': len([r for r in recs if r.get('translation_validated')]),
             'queries': len([r for r in recs if 'solver_s' in r]),
             'solver_s': round(sum(r.get('solver_s', 0) for r in recs), 2),
             'programs_with_rebuild': len([r for r in analysed if r.get('rebuilds')]),
